@@ -211,6 +211,49 @@ fn sized(g: &mut Grid) {
     }
 }
 
+/// plain payloads of sizes that are not multiples of the count word: the uninit constructors must
+/// request, and later return, the same block as the initialised forms
+fn sized_plain<T: Copy + PartialEq + std::fmt::Debug + 'static>(g: &mut Grid, name: &str, v: T) {
+    for ctor in ["Arc::new_uninit", "UniqueArc::new_uninit"] {
+        for path in ["drop_uninit", "assume_init"] {
+            let case = format!("{}::<{}> written then {}", ctor, name, path);
+            vrt::begin_execution();
+            g.case(format!("plain|{}|{}|{}", ctor, name, path), || case.clone());
+            let want = std::alloc::Layout::new::<usize>().extend(std::alloc::Layout::new::<T>()).unwrap().0.pad_to_align();
+            cap(|| {
+                if ctor == "Arc::new_uninit" {
+                    let mut a = Arc::<MaybeUninit<T>>::new_uninit();
+                    Arc::get_mut(&mut a).unwrap().write(v);
+                    if path == "assume_init" {
+                        let a = unsafe { a.assume_init() };
+                        assert!(*a == v);
+                        drop(a)
+                    } else {
+                        drop(a)
+                    }
+                } else {
+                    let mut u = UniqueArc::<T>::new_uninit();
+                    u.write(v);
+                    if path == "assume_init" {
+                        let a = unsafe { UniqueArc::assume_init(u) }.shareable();
+                        assert!(*a == v);
+                        drop(a)
+                    } else {
+                        drop(u)
+                    }
+                }
+            });
+            let ev = arena::events_since(0);
+            if let Some(a) = ev.iter().find(|e| e.kind == arena::EvKind::Alloc) {
+                if a.size < want.size() || a.align < want.align() {
+                    g.fail("uninit-block-too-small", &case, format!("block requested with (size {}, align {}), count + value need ({}, {})", a.size, a.align, want.size(), want.align()));
+                }
+            }
+            end_checks(g, &case);
+        }
+    }
+}
+
 /// deprecated Arc::write / as_mut_slice in every sharing state
 #[allow(deprecated)]
 fn deprecated_writes(g: &mut Grid) {
@@ -331,6 +374,14 @@ pub fn run(tier: &str) -> Vec<Grid> {
     let mut g = Grid::new("c15.uninit", "uninit constructor x length 0..=N x every subset of slots written x {drop before assume_init, assume_init (full subset), assume_init then share/convert}; sized forms x written/unwritten; deprecated write/as_mut_slice x sharing state");
     slices(&mut g, n);
     sized(&mut g);
+    sized_plain(&mut g, "u8", 7u8);
+    sized_plain(&mut g, "u16", 7u16);
+    sized_plain(&mut g, "[u8;3]", [1u8, 2, 3]);
+    sized_plain(&mut g, "u32", 7u32);
+    sized_plain(&mut g, "[u8;9]", [9u8; 9]);
+    sized_plain(&mut g, "[u32;3]", [3u32; 3]);
+    sized_plain(&mut g, "u128", 7u128);
+    sized_plain(&mut g, "()", ());
     deprecated_writes(&mut g);
     vec![g]
 }
